@@ -64,7 +64,29 @@ fn table() -> Vec<Entry> {
     ]
 }
 
+/// diagnostic: VCHECK_LOG=debug|trace prints the trackers' log records (they run in-process)
+struct StderrLog;
+impl log::Log for StderrLog {
+    fn enabled(&self, _: &log::Metadata) -> bool {
+        true
+    }
+    fn log(&self, r: &log::Record) {
+        let t = std::thread::current();
+        eprintln!("[{:?} {} {} {}] {}", std::time::SystemTime::now().duration_since(std::time::UNIX_EPOCH).map(|d| d.as_millis() % 1_000_000).unwrap_or(0), r.level(), t.name().unwrap_or("?"), r.target(), r.args());
+    }
+    fn flush(&self) {}
+}
+static STDERR_LOG: StderrLog = StderrLog;
+
 fn main() {
+    if let Ok(l) = std::env::var("VCHECK_LOG") {
+        let _ = log::set_logger(&STDERR_LOG);
+        log::set_max_level(match l.as_str() {
+            "trace" => log::LevelFilter::Trace,
+            "debug" => log::LevelFilter::Debug,
+            _ => log::LevelFilter::Info,
+        });
+    }
     let args: Vec<String> = std::env::args().collect();
     if args.len() < 2 {
         usage();
